@@ -2,6 +2,7 @@ INIT MCInit
 NEXT MCNext
 CONSTANT SortMode = "topo"
 CONSTANT Size = "s"
+CONSTANT Positions = {"direct", "container", "list", "choice", "augment", "inner", "union"}
 CONSTANT Only = {}
 INVARIANT Confluent
 PROPERTY MCProgress
